@@ -190,6 +190,13 @@ DeclEFrames ==
                  attributes |-> <<[kind |-> "visibility", value |-> "public"], [kind |-> "modifier", name |-> "check", args |-> x[1]]>>],
                 <<<<>>, x[2], <<>>, <<B0>>>>, 2, x[3], 99, "E", "CP")
             : ft \in {"function", "constructor"}, x \in ArgShapes}
+    \* modifier invocations with arguments on the unnamed kinds of function
+    \cup {Frame("CP.FunctionDefinition",
+                [fty |-> ft, name |-> "", params |-> <<>>, returns |-> <<>>,
+                 attributes |-> <<[kind |-> "visibility", value |-> "external"], [kind |-> "mutability", value |-> "payable"],
+                                  [kind |-> "modifier", name |-> "limit", args |-> x[1]]>>],
+                <<<<>>, x[2], <<>>, <<B0>>>>, 2, x[3], 99, "E", "CP")
+            : ft \in {"fallback", "receive"}, x \in {y \in ArgShapes : y[1] = 1 \/ y[3] = 2}}
     \cup {Frame("SUP.FunctionDefinition",
                 [fty |-> "function", name |-> "freeMod", params |-> <<>>, returns |-> <<>>,
                  attributes |-> <<[kind |-> "modifier", name |-> "check", args |-> 1]>>],
